@@ -148,7 +148,15 @@ def gen_cases(rng, tier):
                        ["Al", "Cu", {"k": "ranges", "parts": [[">=", 0.0, {"k": "custom", "name": "form1", "args": [q_ + 1.0]}]]}],
                        ["Cu", "Cu", {"k": "custom", "name": "form0", "args": [q_ + 2.0]}]]}
       pool.append({"model": sing, "route": "potable"})
-    nops = rng.randint(10, 60) + (40 if i % 4 == 1 else 0)
+    if i % 4 == 3:
+      # ranges with EXCLUSIVE interior starts ('>1.5'): the boundary point belongs to the range below, also right after an
+      # evaluation above it
+      c1, c2 = spec.rfloat(rng, 1.0, 9.0, 2), spec.rfloat(rng, 1.0, 9.0, 2)
+      excl = {"type": "pair", "target": rng.choice(["LAMMPS", "GULP"]), "tab": {"nr": 9, "cutoff": 4.0}, "tables": [], "forms": [],
+              "pair": [["Al", "Al", {"k": "ranges", "parts": [[">=", 0.0, {"k": "form", "name": "constant", "p": [c1]}], [">", 1.5, {"k": "form", "name": "polynomial", "p": [c2, 0.5]}]]}],
+                       ["Cu", "Cu", {"k": "ranges", "parts": [[">", 0.0, {"k": "form", "name": "polynomial", "p": [c1, -0.25]}], [">", 2.0, {"k": "form", "name": "constant", "p": [c2]}], [">=", 3.0, {"k": "form", "name": "zero", "p": []}]]}]]}
+      pool.append({"model": excl, "route": rng.choice(["potable", "api"])})
+    nops = rng.randint(10, 60) + (40 if i % 4 in (1, 3) else 0)
     cases.append({"kind": "history", "pool": pool, "nops": nops, "seed": rng.randrange(1 << 30)})
   # API usage variant: ONE parsed ConfigParser object reused for several outputs (read_from_parser twice, filtered
   # views of it created and tabulated in between): every output equals what a fresh process gives for that model
@@ -247,6 +255,7 @@ def run_history(case, ctx):
   pool = case["pool"]
   # choose evaluation points first so the canon can compute them
   evals = []
+  bp_pairs = []
   try:
     tags = []
     for e in pool:
@@ -267,9 +276,11 @@ def run_history(case, ctx):
     brk = sorted(set(b for nd in nodes for b in RM.breakpoints(nd) if 0.0 <= b <= 20.0))
     for b in rng.sample(brk, min(3, len(brk))):
       for tag in rng.sample(tg, min(2, len(tg))) if tg else []:
-        evals.append([mi, tag, b + rng.choice([0.3, 0.05])])
+        above = b + rng.choice([0.3, 0.05])
+        evals.append([mi, tag, above])
         evals.append([mi, tag, b])
         evals.append([mi, tag, max(0.0, b - 0.05)])
+        bp_pairs.append((mi, tag, above, b))
   try:
     # one fresh interpreter PER MODEL: the canon itself must be free of any history
     can = {"bytes": [], "evals": [None] * len(evals)}
@@ -326,6 +337,11 @@ def run_history(case, ctx):
           ops.append(("eval",) + tuple(rng.choice(cand)))
       else:
         ops.append(("other",))
+    # deterministically: the point just above a breakpoint and then the breakpoint itself, back to back on one object
+    # (whatever the object remembers from the evaluation above the boundary must not answer for the boundary)
+    for mi_, tag_, above_, b_ in bp_pairs[:8]:
+      if mi_ in built:
+        ops += [("eval", mi_, tag_, above_), ("eval", mi_, tag_, b_), ("eval", mi_, tag_, above_)]
     built = {}
     for op in ops:
       ctx.cls("op:" + op[0])
